@@ -13,6 +13,7 @@ PROPERTIES = {
     ),
     "C13": dict(
         modules=["contracts.c13_ws"],
+        bounded=[_bounded.lazy("contracts.e2e_variables", "bounded_method_locals")],
         explanation="frame handler outcome table (complete: loop-free), senders, and the subscription iterator with a "
                     "prefix invariant over the server's frame sequence",
         assumptions=["interoperability with a live websockets server beyond the call signature is outside this family"],
@@ -113,7 +114,7 @@ PROPERTIES = {
     ),
     "C03": dict(
         modules=["contracts.c03_arguments", "contracts.c11_clients", "contracts.c06_input_types", "contracts.c07_scalars"],
-        bounded=[_bounded.lazy("contracts.e2e_variables", "bounded_variables")],
+        bounded=[_bounded.lazy("contracts.e2e_variables", "bounded_method_locals"), _bounded.lazy("contracts.e2e_variables", "bounded_variables")],
         explanation="variable annotation translator, local-name freshness, run-time value conversion; whole calls by an end-to-end bounded stand-in with graphql-core's variable coercion",
         assumptions=["that dumped JSON coerces to the caller's values is pydantic's and graphql-core's (assumed, sampled by the stand-in)"],
     ),
@@ -126,7 +127,7 @@ PROPERTIES = {
     ),
     "C02": dict(
         modules=["contracts.c02_documents", "contracts.c17_settings", "contracts.c03_arguments"],
-        bounded=[_bounded.lazy("contracts.e2e_documents", "bounded_documents")],
+        bounded=[_bounded.lazy("contracts.e2e_variables", "bounded_method_locals"), _bounded.lazy("contracts.e2e_documents", "bounded_documents")],
         explanation="method-body templates (the bound query text is what is sent, under every renaming of the method locals), operation validation rule set; whole documents by an end-to-end bounded stand-in",
         assumptions=["embedding of the text in Python source (splitlines, ast.unparse, regex rewrite, isort, black) is outside the solvers' fragment: bounded stand-in only"],
     ),
